@@ -12,6 +12,12 @@ def _c(text, ref):
 
 
 CLAIMS = {
+    "C12": _c("Bounded symbolic model checking of the real validate(): 18 documents (valid, near-valid, ill-typed) x every pair of the "
+              "specified rules in both orders, all rules vs the union of the singletons, every all-but-one subset, every rotation "
+              "of the rule list, repetition and non-mutation of document and schema, four layout rewrites (reprint, strip, added "
+              "ignored material, added descriptions), max_errors 0..11, and history independence (interleaved validations of other "
+              "documents and of the same text against another schema). Rule and document indices are solver-forked; the family is "
+              "finite and explored exhaustively.", "DESIGN.md section 7, C12"),
     "C13": _c("Bounded symbolic model checking of validate() + get_variable_values() + execute_sync() composed: document families "
               "whose holes are solver-forked indices (12 variable types x 6 defaults x 15 usage positions x 11 runtime values; 15 "
               "literals x 15 positions; 12 x 13 x 7 selections on 5 kinds of parent). Whenever the real validation and variable "
